@@ -287,6 +287,13 @@ def f_ghost_no_default(it, g, pos, spell):
         else:
             f.attrs.append(ok)
             sub = "/before_valid_ghost"
+    if named and g.chance(0.35):
+        # another instruction for the same counterpart does carry `..update`: that exempts only itself
+        other = g.pick(["owned_into", "ref_into"] + [x for x in ("from_owned", "from_ref", "try_from_owned", "try_from_ref") if not (set(kinds_of(x)) & set(kinds_of(nm))) or (x.startswith("try") != (nm.startswith("try") or "_try_" in nm))])
+        fal2 = other.startswith("try")
+        if not any(t.name == other and t.f["ty"] == zn for t in _trait_instrs(it)) and not (set(kinds_of(other)) & set(kinds_of(nm)) and fal2 == (nm.startswith("try") or "_try_" in nm)):
+            it.attrs.insert(g.r.randint(0, len(it.attrs)), Instr(other, "trait", ty=zn, hint=None, err="Eu" if fal2 else None, params=[("update", f"k{g.mark()}()")], spelling="bare"))
+            sub += "/sibling_with_update"
     i = _ins(it.fields, pos, f)
     mname = name if named else str(i)
     return Fault("ghost_no_default", f"{gname}/{nm}{sub}", [f"Member instruction #[ghost(...)] for member '{mname}' should provide default value for type {zn}"])
